@@ -121,6 +121,7 @@ def main(argv=None) -> int:
 
 
 if __name__ == "__main__":
+    sys.setrecursionlimit(20000)
     try:
         rc = main()
     except SystemExit:
